@@ -191,7 +191,7 @@ func (r *c07Runner) replay(w *WAL, image []byte, buf []byte) (delivered []string
 
 func (r *c07Runner) run(c *c07Case) {
 	rep := r.rep
-	rep.Eval(1)
+	rep.Count("wal_images", 1)
 	ik := fmt.Sprint(c.Records)
 	image, ok := r.images[ik]
 	if !ok {
@@ -241,6 +241,7 @@ func (r *c07Runner) run(c *c07Case) {
 			buf = append(make([]byte, 0, 64*1024), body...) // a recycled buffer still holding an earlier compressed record
 		}
 		delivered, pan := r.replay(w, image[:cut:cut], buf)
+		rep.Eval(1) // one evaluation = one replay of one prefix (the whole image is the last prefix)
 		rep.Count("wal_prefixes_replayed", 1)
 		key := fmt.Sprintf("%s/cut%d", c.key(), cut)
 		cc := *c
